@@ -19,6 +19,10 @@ S_3x    == <<51, 120>>               \* "3x"     starts like a number
 S_inf   == <<105, 110, 102>>         \* "inf"
 S_nan   == <<110, 97, 110>>          \* "nan"
 S_1_0   == <<49, 95, 48>>            \* "1_0"
+\* text spelled like an error value is text: "#REF!"&"x" is "#REF!x", "#REF!"+1 is #VALUE!
+S_ref   == <<35, 82, 69, 70, 33>>            \* "#REF!"
+S_na    == <<35, 78, 47, 65>>                \* "#N/A"
+S_empty_code == <<35, 69, 77, 80, 84, 89, 33>>   \* "#EMPTY!"  looks like one, is none
 
 MCPool == <<
    IntV(0), IntV(1), IntV(-1), IntV(2), Num(1, 2), Num(-5, 2), IntV(3), IntV(100),
@@ -26,10 +30,15 @@ MCPool == <<
    Text(S_3), Text(S_m1), Text(S_05), Text(S_sp3sp),
    Text(S_a), Text(S_A), Text(S_b), Text(S_empty), Text(S_3x),
    Text(S_inf), Text(S_nan), Text(S_1_0),
+   Text(S_ref), Text(S_na), Text(S_empty_code),
    TRUEV, FALSEV,
    Blank,
    Err("#NULL!"), Err("#DIV/0!"), Err("#VALUE!"), Err("#REF!"), Err("#NAME?"),
    Err("#NUM!"), Err("#N/A") >>
+
+\* finding C10_r3_2: these texts are taken for the error value (the last for blank)
+MCDev == (Text(S_ref) :> Err("#REF!")) @@ (Text(S_na) :> Err("#N/A"))
+            @@ (Text(S_empty_code) :> Blank)
 
 \* why the transitivity law excludes blank: blank = 0 and blank = "" but 0 < ""
 ASSUME BlankBreaksTransitivity ==
@@ -51,6 +60,10 @@ ASSUME Examples ==
    /\ Apply(">", FALSEV, Text(S_b)) = TRUEV                 \* text < logical
    /\ Apply("=", Text(S_a), Text(S_A)) = TRUEV
    /\ Apply("+", Text(S_inf), IntV(1)) = VALUE
+   /\ Apply("+", Text(S_ref), IntV(1)) = VALUE
+   /\ Apply("&", Text(S_na), Text(S_a)) = Text(S_na \o S_a)
+   /\ Apply("=", Text(S_na), Text(S_na)) = TRUEV
+   /\ Apply(">", Text(S_ref), IntV(400)) = TRUEV            \* it is text: above every number
    /\ Apply("+", Err("#N/A"), Err("#REF!")) = Err("#N/A")
    /\ Apply1("%", Text(S_05)) = Num(1, 200)
    /\ Apply1("u-", Blank) = IntV(0)
